@@ -56,8 +56,9 @@ def EventPasses (s : St) (e : Nat) : Prop := ∃ ev, s.evs[e]? = some ev ∧ exc
 /-- The hook's own limit lets the next invocation through. -/
 def HookBudget (s : St) (h : Nat) : Prop := ∃ hk, s.hooks[h]? = some hk ∧ exceeds hk.max (hk.count + 1) = false
 
-theorem callOf_some {e a : Nat} {hk : Hook} {c : Call} (h : callOf e a hk = some c) :
-    hk.ev = e ∧ hk.attached = true ∧ exceeds hk.max (hk.count + 1) = false ∧ c = ⟨.call, hk.handle, a, hk.pooled⟩ := by
+theorem callOf_some {p q : Bool} {e a : Nat} {hk : Hook} {c : Call} (h : callOf p q e a hk = some c) :
+    hk.ev = e ∧ hk.attached = true ∧ exceeds hk.max (hk.count + 1) = false ∧
+      c = ⟨.call, hk.handle, a, q || effPooled p hk⟩ := by
   unfold callOf at h
   by_cases h1 : (hk.ev != e || !hk.attached) = true
   · simp [h1] at h
@@ -68,30 +69,31 @@ theorem callOf_some {e a : Nat} {hk : Hook} {c : Call} (h : callOf e a hk = some
         Bool.not_eq_false] at h1
       exact ⟨h1.1, h1.2, by simpa using h2, h.symm⟩
 
-theorem callOf_of {e a : Nat} {hk : Hook} (h1 : hk.ev = e) (h2 : hk.attached = true)
-    (h3 : exceeds hk.max (hk.count + 1) = false) : callOf e a hk = some ⟨.call, hk.handle, a, hk.pooled⟩ := by
+theorem callOf_of {p q : Bool} {e a : Nat} {hk : Hook} (h1 : hk.ev = e) (h2 : hk.attached = true)
+    (h3 : exceeds hk.max (hk.count + 1) = false) :
+    callOf p q e a hk = some ⟨.call, hk.handle, a, q || effPooled p hk⟩ := by
   simp [callOf, h1, h2, h3]
 
 /-- The invocations among the log entries. -/
 def isCall (c : Call) : Bool := c.kind == .call
 
-theorem preCalls_not_call (p : Bool) (e a : Nat) (hk : Hook) : (preCalls p e a hk).filter isCall = [] := by
+theorem preCalls_not_call (p q : Bool) (e a : Nat) (hk : Hook) : (preCalls p q e a hk).filter isCall = [] := by
   unfold preCalls
   cases p <;> cases hk.pre <;> simp [isCall]
 
-theorem entries_filter (p : Bool) (e a : Nat) (hk : Hook) :
-    (entriesOf p e a hk).filter isCall = (callOf e a hk).toList := by
+theorem entries_filter (p p' q : Bool) (e a : Nat) (hk : Hook) :
+    (entriesOf p p' q e a hk).filter isCall = (callOf p' q e a hk).toList := by
   unfold entriesOf
-  cases hc : callOf e a hk with
+  cases hc : callOf p' q e a hk with
   | none => simp
   | some c =>
     simp only [List.filter_append, preCalls_not_call, List.nil_append, Option.toList_some]
     rw [(callOf_some hc).2.2.2]; simp [isCall]
 
-theorem entries_arg (p : Bool) (e a : Nat) (hk : Hook) : ∀ c ∈ entriesOf p e a hk, c.arg = a := by
+theorem entries_arg (p p' q : Bool) (e a : Nat) (hk : Hook) : ∀ c ∈ entriesOf p p' q e a hk, c.arg = a := by
   intro c hc
   unfold entriesOf at hc
-  cases hco : callOf e a hk with
+  cases hco : callOf p' q e a hk with
   | none => simp [hco] at hc
   | some c' =>
     simp only [hco, List.mem_append, List.mem_singleton] at hc
@@ -109,9 +111,10 @@ theorem flatMap_filter {α β : Type} (l : List α) (f : α → List β) (q : β
   | nil => rfl
   | cons a l ih => simp [List.flatMap_cons, List.filter_append, ih]
 
-theorem calls_sorted (e a : Nat) (l : List Hook) (hh : ∀ (k : Nat) (hk : Hook), l[k]? = some hk → hk.handle = k) :
-    ((l.flatMap (fun h => (callOf e a h).toList)).map (·.handle)).Pairwise (· < ·) ∧
-    ∀ c ∈ l.flatMap (fun h => (callOf e a h).toList), c.handle < l.length := by
+theorem calls_sorted (p q : Bool) (e a : Nat) (l : List Hook)
+    (hh : ∀ (k : Nat) (hk : Hook), l[k]? = some hk → hk.handle = k) :
+    ((l.flatMap (fun h => (callOf p q e a h).toList)).map (·.handle)).Pairwise (· < ·) ∧
+    ∀ c ∈ l.flatMap (fun h => (callOf p q e a h).toList), c.handle < l.length := by
   induction l using snoc_induction with
   | h0 => simp
   | hs l x ih =>
@@ -126,12 +129,12 @@ theorem calls_sorted (e a : Nat) (l : List Hook) (hh : ∀ (k : Nat) (hk : Hook)
     constructor
     · rw [List.pairwise_append]
       refine ⟨ih1, ?_, ?_⟩
-      · cases hc : callOf e a x <;> simp
-      · intro p hp q hq
+      · cases hc : callOf p q e a x <;> simp
+      · intro x1 hp x2 hq
         simp only [List.mem_map] at hp hq
         obtain ⟨c, hc, rfl⟩ := hp
         obtain ⟨d, hd, rfl⟩ := hq
-        have hd' : callOf e a x = some d := by simpa using hd
+        have hd' : callOf p q e a x = some d := by simpa using hd
         rw [(callOf_some hd').2.2.2]
         have := ih2 c hc
         simp only; omega
@@ -139,7 +142,7 @@ theorem calls_sorted (e a : Nat) (l : List Hook) (hh : ∀ (k : Nat) (hk : Hook)
       simp only [List.mem_append] at hc
       rcases hc with hc | hc
       · have := ih2 c hc; omega
-      · have hd' : callOf e a x = some c := by simpa using hc
+      · have hd' : callOf p q e a x = some c := by simpa using hc
         rw [(callOf_some hd').2.2.2]; simp only; omega
 
 /-- **C15, Trigger (sequential histories of New/Hook/Unhook/Trigger with any limits, pooled hooks
@@ -159,8 +162,8 @@ theorem C15_trigger_exactly_once (pre : List Op) (e a : Nat) (hnl : noLink pre)
   generalize hs : final init pre = s at he hnli htr hor
   obtain ⟨ev, hev⟩ : ∃ x, s.evs[e]? = some x := ⟨s.evs[e], List.getElem?_eq_getElem he⟩
   obtain ⟨_, _, t3⟩ := trig_nolink s.evs.length s e a hnli.nolinks ev hev
-  refine ⟨(trig (s.evs.length + 1) s e a).2, by simp [step, he], ?_⟩
-  generalize trig (s.evs.length + 1) s e a = r at t3
+  refine ⟨(trig (s.evs.length + 1) s e a false).2, by simp [step, he], ?_⟩
+  generalize trig (s.evs.length + 1) s e a false = r at t3
   by_cases hx : exceeds ev.max (ev.count + 1) = true
   · simp only [hx, if_true] at t3
     rw [t3.2.2]
@@ -172,14 +175,14 @@ theorem C15_trigger_exactly_once (pre : List Op) (e a : Nat) (hnl : noLink pre)
       rw [hev] at hev'; cases hev'; rw [hx] at hp; cases hp
   · simp only [hx, Bool.false_eq_true, if_false] at t3
     rw [t3.2.2]
-    have hfil : (s.hooks.flatMap (entriesOf ev.pre e a)).filter isCall =
-        s.hooks.flatMap (fun h => (callOf e a h).toList) := by
-      rw [flatMap_filter]; congr 1; funext hk; exact entries_filter ev.pre e a hk
-    have hmem : ∀ c, (c ∈ s.hooks.flatMap (entriesOf ev.pre e a) ∧ c.kind = .call) ↔
-        ∃ (k : Nat) (hk : Hook), s.hooks[k]? = some hk ∧ callOf e a hk = some c := by
+    have hfil : (s.hooks.flatMap (entriesOf ev.pre ev.pooled false e a)).filter isCall =
+        s.hooks.flatMap (fun h => (callOf ev.pooled false e a h).toList) := by
+      rw [flatMap_filter]; congr 1; funext hk; exact entries_filter ev.pre ev.pooled false e a hk
+    have hmem : ∀ c, (c ∈ s.hooks.flatMap (entriesOf ev.pre ev.pooled false e a) ∧ c.kind = .call) ↔
+        ∃ (k : Nat) (hk : Hook), s.hooks[k]? = some hk ∧ callOf ev.pooled false e a hk = some c := by
       intro c
-      have : (c ∈ s.hooks.flatMap (entriesOf ev.pre e a) ∧ c.kind = .call) ↔
-          c ∈ (s.hooks.flatMap (entriesOf ev.pre e a)).filter isCall := by
+      have : (c ∈ s.hooks.flatMap (entriesOf ev.pre ev.pooled false e a) ∧ c.kind = .call) ↔
+          c ∈ (s.hooks.flatMap (entriesOf ev.pre ev.pooled false e a)).filter isCall := by
         simp [List.mem_filter, isCall]
       rw [this, hfil]
       simp only [List.mem_flatMap, Option.mem_toList]
@@ -189,10 +192,10 @@ theorem C15_trigger_exactly_once (pre : List Op) (e a : Nat) (hnl : noLink pre)
         exact ⟨k, hk, hk', hc⟩
       · intro ⟨k, hk, hk', hc⟩
         exact ⟨hk, List.mem_of_getElem? hk', hc⟩
-    refine ⟨by rw [hfil]; exact (calls_sorted e a s.hooks hnli.handle).1, ?_, ?_⟩
+    refine ⟨by rw [hfil]; exact (calls_sorted ev.pooled false e a s.hooks hnli.handle).1, ?_, ?_⟩
     · intro c hc
       obtain ⟨hk, _, hce⟩ := List.mem_flatMap.mp hc
-      exact entries_arg ev.pre e a hk c hce
+      exact entries_arg ev.pre ev.pooled false e a hk c hce
     · intro h
       constructor
       · intro ⟨c, hc, hck, hch⟩
@@ -202,9 +205,9 @@ theorem C15_trigger_exactly_once (pre : List Op) (e a : Nat) (hnl : noLink pre)
         subst hkh
         refine ⟨⟨ev, hev, by simpa using hx⟩, ?_, ⟨hk, hkk, c3⟩⟩
         obtain ⟨p1, p2, hdec, hout⟩ := hor k hk hkk
-        obtain ⟨hk2, hhk2, _, _, _, _, hiff⟩ := htr p1 hk.ev hk.max hk.pooled hk.pre p2 k hdec hout
+        obtain ⟨hk2, hhk2, _, _, _, _, hiff⟩ := htr p1 hk.ev hk.max hk.pool hk.pre p2 k hdec hout
         rw [hkk] at hhk2; cases hhk2
-        exact ⟨p1, hk.max, hk.pooled, hk.pre, p2, by rw [← c1]; exact hdec, by rw [← c1]; exact hout,
+        exact ⟨p1, hk.max, hk.pool, hk.pre, p2, by rw [← c1]; exact hdec, by rw [← c1]; exact hout,
           (hiff.mp c2).1⟩
       · intro ⟨_, ⟨p1, m, b, p, p2, hdec, hout, hno⟩, ⟨hk, hkk, hb⟩⟩
         obtain ⟨hk2, hhk2, h1, _, _, _, hiff⟩ := htr p1 e m b p p2 h hdec hout
@@ -216,7 +219,8 @@ theorem C15_trigger_exactly_once (pre : List Op) (e a : Nat) (hnl : noLink pre)
             exact ⟨Nat.lt_succ_of_lt hex.2, hex.1⟩
           rw [hb] at this; cases this
         have hatt := hiff.mpr ⟨hno, hnex⟩
-        obtain ⟨hc1, hc2⟩ := (hmem ⟨.call, hk.handle, a, hk.pooled⟩).mpr ⟨h, hk, hkk, callOf_of h1 hatt hb⟩
+        obtain ⟨hc1, hc2⟩ := (hmem ⟨.call, hk.handle, a, false || effPooled ev.pooled hk⟩).mpr
+          ⟨h, hk, hkk, callOf_of h1 hatt hb⟩
         exact ⟨_, hc1, hc2, hnli.handle h hk hkk⟩
 
 /-- **C15, pre-trigger functions (same histories).**  The log of `Trigger(e, a)` is, for the invoked
@@ -227,16 +231,16 @@ hook. -/
 theorem C15_pre_trigger (pre : List Op) (e a : Nat) (hnl : noLink pre) (ev : Ev)
     (hev : (final init pre).evs[e]? = some ev) (hpass : exceeds ev.max (ev.count + 1) = false) :
     (step (final init pre) (.trigger e a)).2 = .calls
-      (((final init pre).hooks.filter (fun hk => (callOf e a hk).isSome)).flatMap (fun hk =>
+      (((final init pre).hooks.filter (fun hk => (callOf ev.pooled false e a hk).isSome)).flatMap (fun hk =>
         (if ev.pre then [⟨.preEv, e, a, false⟩] else []) ++
         (if hk.pre then [⟨.preHook, hk.handle, a, false⟩] else []) ++
-        [⟨.call, hk.handle, a, hk.pooled⟩])) := by
+        [⟨.call, hk.handle, a, effPooled ev.pooled hk⟩])) := by
   have hnli := (hinv_of_noLink pre hnl).nl
   generalize final init pre = s at hev hnli
   have he : e < s.evs.length := getElem?_lt hev
   obtain ⟨_, _, t3⟩ := trig_nolink s.evs.length s e a hnli.nolinks ev hev
   simp only [step, he, if_true]
-  generalize trig (s.evs.length + 1) s e a = r at t3
+  generalize trig (s.evs.length + 1) s e a false = r at t3
   simp only [hpass, Bool.false_eq_true, if_false] at t3
   rw [t3.2.2]
   congr 1
@@ -245,18 +249,62 @@ theorem C15_pre_trigger (pre : List Op) (e a : Nat) (hnl : noLink pre) (ev : Ev)
   | nil => rfl
   | cons hk l ih =>
     simp only [List.flatMap_cons, List.filter_cons]
-    cases hc : callOf e a hk with
+    cases hc : callOf ev.pooled false e a hk with
     | none => simp [entriesOf, hc, ih]
     | some c =>
       simp only [entriesOf, hc, Option.isSome_some, if_true, List.flatMap_cons, ih, preCalls]
-      rw [(callOf_some hc).2.2.2]
+      rw [(callOf_some hc).2.2.2]; simp
+
+/-- **C15, pooled hooks (same histories; C16's task conservation as the hypothesis).**  The entries
+of a `Trigger`'s log that are marked `pooled` are the tasks it submitted to worker pools (a hook's
+own pool, or the event's pool for hooks without a pool option — `WithWorkerPool(nil)` on the hook
+forces in-place execution).  If the pools run every submitted task exactly once and nothing else
+(`executed` is a permutation of the submitted tasks — C16), then by the time they have drained
+every submitted invocation has been executed exactly once and nothing else has. -/
+theorem C15_pooled_exactly_once (pre : List Op) (e a : Nat) (hnl : noLink pre)
+    (he : e < (final init pre).evs.length) (cs executed : List Call)
+    (hcs : (step (final init pre) (.trigger e a)).2 = .calls cs)
+    (hcons : executed.Perm (cs.filter (·.pooled))) :
+    (∀ c ∈ cs, c.kind = .call → c.pooled = true → executed.count c = 1) ∧
+    (∀ c ∈ executed, c ∈ cs ∧ c.pooled = true) := by
+  obtain ⟨cs', hcs', hsorted, _, _⟩ := C15_trigger_exactly_once pre e a hnl he
+  rw [hcs] at hcs'; cases hcs'
+  refine ⟨?_, ?_⟩
+  · intro c hc hk hp
+    rw [hcons.count_eq, List.count_filter (by simpa using hp)]
+    have hcf : c ∈ cs.filter isCall := List.mem_filter.mpr ⟨hc, by simp [isCall, hk]⟩
+    have h1 : (cs.filter isCall).count c = 1 := by
+      generalize cs.filter isCall = l at hsorted hcf
+      induction l with
+      | nil => cases hcf
+      | cons x l ih =>
+        simp only [List.map_cons, List.pairwise_cons] at hsorted
+        rw [List.count_cons]
+        simp only [List.mem_cons] at hcf
+        by_cases hxc : x = c
+        · subst hxc
+          have : l.count x = 0 := by
+            rw [List.count_eq_zero]
+            intro hin
+            exact Nat.lt_irrefl _ (hsorted.1 x.handle (List.mem_map.mpr ⟨x, hin, rfl⟩))
+          simp [this]
+        · have hin : c ∈ l := by
+            rcases hcf with rfl | hcf
+            · exact absurd rfl hxc
+            · exact hcf
+          simp [hxc, ih hsorted.2 hin]
+    rw [← h1, List.count_filter (by simp [isCall, hk])]
+  · intro c hc
+    have := hcons.mem_iff.mp hc
+    have := List.mem_filter.mp this
+    exact ⟨this.1, by simpa using this.2⟩
 
 /-- Non-vacuity: hypotheses and conclusion of `C15_trigger_exactly_once` on a concrete history — hook 0
 was unhooked, hook 1 (pooled, limit 1) is used up by the first trigger, hooks 2 and 3 are invoked
 in attachment order with the second trigger's argument. -/
 example :
-    let pre : List Op := [.new 0 true, .hook 0 0 false false, .hook 0 1 true false, .hook 0 0 false true, .unhook 0,
-      .trigger 0 5, .hook 0 3 false false]
+    let pre : List Op := [.new 0 true false, .hook 0 0 none false, .hook 0 1 (some true) false, .hook 0 0 none true,
+      .unhook 0, .trigger 0 5, .hook 0 3 none false]
     noLink pre ∧ 0 < (final init pre).evs.length ∧
     (step (final init pre) (.trigger 0 6)).2 = .calls
       [⟨.preEv, 0, 6, false⟩, ⟨.preHook, 2, 6, false⟩, ⟨.call, 2, 6, false⟩, ⟨.preEv, 0, 6, false⟩, ⟨.call, 3, 6, false⟩] ∧
@@ -358,7 +406,7 @@ theorem C15_link (ops : List Op) (src t : Nat) :
 
 /-- Non-vacuity: re-linking moves the single link hook; the former target keeps none. -/
 example :
-    let s := final init [.new 0 false, .new 0 false, .new 0 false, .link 2 0, .link 2 1, .link 2 1]
+    let s := final init [.new 0 false false, .new 0 false false, .new 0 false false, .link 2 0, .link 2 1, .link 2 1]
     linkHooksOn s 0 2 = 0 ∧ linkHooksOn s 1 2 = 1 ∧ currentTarget s 2 = some 1 := by
   decide
 
@@ -463,7 +511,7 @@ theorem C15_max_trigger_count_seq (ops : List Op) :
 
 /-- Non-vacuity: a hook limited to 2 on an event limited to 3, five triggers. -/
 example :
-    let s := final init [.new 3 false, .hook 0 2 false false, .hook 0 0 false false, .trigger 0 1, .trigger 0 2,
+    let s := final init [.new 3 false false, .hook 0 2 none false, .hook 0 0 none false, .trigger 0 1, .trigger 0 2,
       .trigger 0 3, .trigger 0 4, .trigger 0 5]
     s.hooks.map (fun h => (h.count, h.fired, h.attached)) = [(3, 2, false), (3, 3, true)] ∧
     s.evs.map (fun e => (e.count, e.passed)) = [(5, 3)] := by
@@ -857,8 +905,8 @@ theorem C15_skeleton_Hook_Unhook : skel_Hook_Unhook =
 /-- event check, then `ForEach` with the consumer: hook check → `Unhook` or (pre-trigger functions,) `Submit` to the pool or direct call (`Events.visitKey`, `EventsMax.Th`). -/
 theorem C15_skeleton_Event1_Trigger : skel_Event1_Trigger =
     ["helper currentTriggerExceedsMaxTriggerCount", "if{", "return", "}if", "func{",
-      "helper currentTriggerExceedsMaxTriggerCount", "if{", "call hook.Unhook", "return", "}if", "if{",
-      "}if", "if{", "}if", "if{", "func{", "}func", "call workerPool.Submit", "}else{", "}if", "return",
+      "helper currentTriggerExceedsMaxTriggerCount", "if{", "call hook.Unhook", "return", "}if", "if{", "}if", "if{",
+      "}if", "helper WorkerPool", "if{", "func{", "}func", "call workerPool.Submit", "}else{", "}if", "return",
       "}func", "call e.hooks.ForEach"] := by decide
 
 /-- read `head` under the read lock, consumer outside the lock, read `next` under the read lock (`EventsIter.ItPc`). -/
@@ -876,6 +924,15 @@ theorem C15_skeleton_OrderedMap_Delete : skel_OrderedMap_Delete =
 theorem C15_skeleton_OrderedMap_Set : skel_OrderedMap_Set =
     ["lock o.mutex", "defer unlock o.mutex", "call o.dictionary.Get", "if{", "return", "}if", "if{",
       "}else{", "}if", "call o.dictionary.Set", "return"] := by decide
+
+/-- `hook.WorkerPool()`: the hook's own setting if it has one (`WithWorkerPool(nil)` = in place), else
+the event's (`effPooled`). -/
+theorem C15_skeleton_Hook_WorkerPool : skel_Hook_WorkerPool =
+    ["helper hasWorkerPool", "if{", "return", "}if", "helper WorkerPool", "return"] := by decide
+
+/-- The sentinel for "in place" counts as a setting. -/
+theorem C15_skeleton_triggerSettings_hasWorkerPool : skel_triggerSettings_hasWorkerPool =
+    ["if{", "return", "}if", "return"] := by decide
 
 end skeletons
 
